@@ -478,6 +478,19 @@ def run(cx, rep):
     # ---------------------------------------------------------------- C09.14
     rep.rule("C09.14", "in type position a local type declaration wins over an imported name")
     local_type_before_import_rule(cx, rep, "C09.14")
+    # ---------------------------------------------------------------- C09.15
+    rep.rule("C09.15", "an answer of the host (module resolution, file lookup) is remembered under a key that carries every argument of the query")
+    hits = memo_key_hits(cx.rs)
+    for gid, loc, q, missing in hits:
+        rep.ob("C09.15", "%s/memo-key" % gid.rsplit("::", 1)[-1], False,
+               "%s remembers the answer of the host query %s in a table whose key does not carry the argument(s) %s on every path (only under a condition, or not at all): two queries that differ in that argument share one entry - `import(\"../types\")` written in two directories is resolved once and bound to the same module in both files" % (gid, q, ", ".join(missing)),
+               loc, sample={"fn": gid, "query": q, "arguments_missing_from_key": missing})
+    rep.ob("C09.15", "scan", True, sample={"memoised_host_queries_with_partial_keys": len(hits)})
+    if cx.canary is not None:
+        ch = memo_key_hits(cx.canary, all_files=True)
+        names = {h[0].rsplit("::", 1)[-1] for h in ch}
+        rep.ob("C09.15", "control/canary-memo-key", "memo_conditional_key" in names and "memo_full_key" not in names,
+               "positive control: the canary crate's conditionally keyed memo must be reported and its fully keyed twin must not (reported: %s)" % sorted(names), "canary/rs/src/lib.rs")
     # ---------------------------------------------------------------- C09.13
     rep.rule("C09.13", "syntax taken out of a located record is interpreted with that record's location")
     payload_file_rule(cx, rep, "C09.13")
@@ -939,3 +952,85 @@ def local_type_before_import_rule(cx, rep, rid):
                    "%s asks the import table for a name before the tables of local type declarations: a module that imports a value `User` and declares a type `User` then resolves the type reference in the module the VALUE comes from - splitting the constant off into its own file changes what the type means" % g,
                    "%s:%s" % (f.file, (early[0] if early else seq[0][2]).get("line")), sample={"fn": g, "order": [k for k, _, _ in sorted(seq, key=lambda z: z[1])]})
     rep.floor(rid, "lookups of one name in local type tables and in the import table", n, 1)
+
+
+# ---------------------------------------------------------------------------------------------------- C09.15
+def memo_key_hits(F, all_files=False):
+    """Functions that (1) ask the host - a call of a method of a local trait on a generic receiver (FileManager /
+    FsModuleResolver: module resolution, file lookup), (2) store the answer in a map field of `self` and (3) look the
+    same map up before asking: the key handed to `insert` must mention every argument of the query OUTSIDE any
+    conditional construct (closure, if, match).  Returns [(fn, loc, query, [missing argument names])]."""
+    from facts import walk as hwalk
+    trait_methods = {m for t in F.traits.values() for m in t.get("items", [])}
+    out = []
+    for g, tree in sorted(F.hir.items()):
+        f = F.fns.get(g)
+        if f is None or f.kind == "Closure":
+            continue
+        lets = {}
+        for n in hwalk(tree["body"]):
+            if n["k"] == "LetStmt" and n["pat"]["k"] == "P.Binding" and n.get("init") is not None:
+                lets[n["pat"].get("lid")] = n["init"]
+            if n["k"] == "Let" and n.get("init") is not None:
+                # `if let Some(entry) = table.get_mut(k)`: the binding stands for the looked-up entry
+                for q_ in hwalk(n["pat"]):
+                    if q_["k"] == "P.Binding":
+                        lets[q_.get("lid")] = n["init"]
+        queries = [n for n in hwalk(tree["body"]) if n["k"] == "MethodCall" and not n.get("resolved") and
+                   any((n.get("callee") or "") == m or m.endswith("::" + (n.get("callee") or "\0")) or (n.get("callee") or "").endswith(m) for m in trait_methods)
+                   and (n.get("recv_ty") or "").lstrip("&mut ").strip() in ("R", "T", "H", "F", "M") or
+                   (n["k"] == "MethodCall" and not n.get("resolved") and n.get("callee") in trait_methods and len((n.get("recv_ty") or "").replace("&mut ", "").replace("&", "").strip()) <= 2)]
+        if not queries:
+            continue
+        inserts = [n for n in hwalk(tree["body"]) if n["k"] == "MethodCall" and n.get("method") == "insert" and len(n.get("args") or []) == 2 and
+                   any(x["k"] == "Field" for x in hwalk(n["recv"])) and ("BTreeMap" in (n.get("callee") or "") or "HashMap" in (n.get("callee") or ""))]
+        gets = [n for n in hwalk(tree["body"]) if n["k"] == "MethodCall" and n.get("method") in ("get", "contains_key", "entry") and
+                any(x["k"] == "Field" for x in hwalk(n["recv"])) and ("BTreeMap" in (n.get("callee") or "") or "HashMap" in (n.get("callee") or ""))]
+        def field_name(e):
+            fs = [x["name"] for x in hwalk(e) if x["k"] == "Field"]
+            return fs[0] if fs else None
+        def locals_unconditional(e, depth=4):
+            """(unconditional local lids, conditional local lids) mentioned by e, resolving let-bound locals"""
+            un, co = set(), set()
+            def go(n, cond, d):
+                if not isinstance(n, dict):
+                    return
+                k = n.get("k")
+                if k == "Path" and n.get("res") == "local":
+                    (co if cond else un).add(n.get("lid"))
+                    if n.get("lid") in lets and d > 0:
+                        go(lets[n["lid"]], cond, d - 1)
+                    return
+                for key, v in n.items():
+                    c2 = cond or k in ("Closure",) or (k == "If" and key in ("then", "else")) or (k == "Match" and key == "arms")
+                    if isinstance(v, dict):
+                        go(v, c2, d)
+                    elif isinstance(v, list):
+                        for y in v:
+                            if isinstance(y, dict):
+                                go(y, c2, d)
+            go(e, False, depth)
+            return un, co
+        for q in queries:
+            qargs = []
+            for a in q["args"]:
+                ls = [x for x in hwalk(a) if x["k"] == "Path" and x.get("res") == "local"]
+                if ls:
+                    qargs.append(ls[0])
+            # is the answer stored?  the inserted value derives from the query
+            for ins in inserts:
+                fld = field_name(ins["recv"])
+                if not any(field_name(gt["recv"]) == fld for gt in gets):
+                    continue
+                vun, vco = locals_unconditional(ins["args"][1])
+                qlet = [l for l, init in lets.items() if any(x is q for x in hwalk(init))]
+                if not (any(x is q for x in hwalk(ins["args"][1])) or any(l in vun | vco for l in qlet)):
+                    continue
+                kun, kco = locals_unconditional(ins["args"][0])
+                # a nested table: the entry the map lives in was itself looked up with some of the arguments
+                run, rco = locals_unconditional(ins["recv"])
+                kun |= run
+                missing = [a.get("name") for a in qargs if a.get("lid") not in kun]
+                if missing:
+                    out.append((g, "%s:%s" % (f.file, ins.get("line")), q.get("callee"), missing))
+    return out
